@@ -10,7 +10,8 @@ DECIDING = ["M-ROUNDTRIP", "M-CSV-READ", "M-RTTM", "M-TEXTGRID", "M-ELAN"]
 LEVEL = "exploration"
 RULE = ("generated files with an independently known content: (a) CSV round trip from_csv(to_csv(c)) == c with equal "
         "categories, delimiters , ; tab |, annotator / label text with spaces, quotes, delimiter characters, unicode, "
-        "embedded \\n \\r \\r\\n, leading / trailing blanks, empty label, arbitrary finite doubles as times; (b) CSV "
+        "embedded \\n \\r \\r\\n, multi-line fields with empty / blank inner lines, leading / trailing blanks, empty label, "
+        "arbitrary finite doubles as times (Python floats, numpy scalars, ints); (b) CSV "
         "files written by the harness (csv module and hand-quoted) incl. zero-length and reversed rows: dropped with "
         "discard_invalid_rows=True, ValueError otherwise; (c) RTTM lines; (d) TextGrid files written with the textgrid "
         "package (several interval tiers, empty marks, an unselected point tier, tier selection, tier-as-label); (e) "
